@@ -1,38 +1,46 @@
 import MJ.Model.Blocks
 /-!
-# Specification of template inheritance (state-free, substitution style)
+# Specification of template composition (no block stacks, no cursor, no capture stack)
 
 `defs env chain n` are the bodies of block `n` along an inheritance chain from the most- to the
 least-derived template.  The spec renders
 
-* a block reference as the *first* element of `defs` (the most-derived definition; a template that
-  does not define the block contributes nothing, so the nearest ancestor's definition is used),
-* `super()` inside the `k`-th definition as the `k+1`-st definition (an error when there is none),
-* the text in front of an `extends` tag, then the parent; everything that stands outside blocks
-  behind an executed `extends` tag contributes nothing (a second executed `extends` is an error),
-* a chain that comes back to a template it already extended, or that names a missing template,
-  as an error.
+* a block reference (`{% block %}`, `{{ self.n() }}`, `{% set v = self.n() %}`) as the *first*
+  element of `defs` — the most-derived definition; a template that does not define the block
+  contributes nothing, so the nearest ancestor's definition is used; a single `required`
+  definition is an error,
+* `super()` (emitted or captured into a variable) inside the `k`-th definition as the `k+1`-st
+  definition (an error when there is none),
+* the statements in front of an executed `extends` tag normally, the statements behind it
+  silently and without rendering blocks (their side effects and errors still happen; a second
+  executed `extends` is an error), then the parent; a chain that comes back to a template it
+  already extended, or that names a missing template, is an error,
+* `include` as "the first existing template of the list, rendered as an inheritance chain of its
+  own on the includer's frames" (`ignore missing` only matters when no name exists; errors inside
+  are wrapped in `BadInclude`),
+* `import` / `from … import` as such an include into a fresh frame whose locals become the
+  module / the imported value,
+* loops and macro calls by running their bodies (macro: fresh frames, no current block).
 
-There is no block stack, no depth cursor, no output capture and no state here.  Fuel bounds the
-nesting depth exactly as in the driver (`MJ.Blocks.evalImpl`), so the two can be compared for
-every amount of fuel, including the runs that are cut off.
+What is shared with the driver: the handling of variables (`varItem`, `store`, `load`: the
+frames are threaded exactly as the engine does — the spec abstracts from the *block* machinery,
+not from variable scoping) and the recursion-limit accounting (`outer` + number of frames).
+Fuel bounds the nesting depth exactly as in the driver (`MJ.Blocks.evalImpl`), so the two can be
+compared for every amount of fuel.
 -/
 namespace MJ.Blocks
 
-/-- text or block reference (or an `extends` that is not executed) -/
-def Item.isPlain : Item → Bool
-  | .text _ | .callBlock _ | .extends false _ => true
-  | _ => false
+abbrev SRes := Except Err (List String × List Frame)
 
-/-- what may stand in a block body of the core fragment -/
-def Item.isBody : Item → Bool
-  | .text _ | .callBlock _ | .super => true
-  | _ => false
-
-/-- what may follow an executed `extends`: plain items and further `extends` tags -/
-def Item.isPost : Item → Bool
-  | .text _ | .callBlock _ | .extends _ _ => true
-  | _ => false
+/-- the spec one nesting level further down -/
+structure SpecCbs where
+  /-- definition `k` of block `n` (its frame already pushed): `D n k disc outer frames` -/
+  body : (Nat → List (List Item)) → Nat → Nat → Bool → Nat → List Frame → SRes
+  /-- a statement list inside the current definition (loop / macro bodies):
+      `D cur disc ext outer items frames` -/
+  list : (Nat → List (List Item)) → Option (Nat × Nat) → Bool → Bool → Nat → List Item → List Frame → SRes
+  /-- the layout of the last template of `chain`, then its parents: `chain disc outer layout frames` -/
+  chain : List Nat → Bool → Nat → List Item → List Frame → SRes
 
 /-- the block table entry of template `i` for block `n` -/
 def blockOf (env : Env) (i n : Nat) : Option (List Item) :=
@@ -44,50 +52,124 @@ def blockOf (env : Env) (i n : Nat) : Option (List Item) :=
 def defs (env : Env) (chain : List Nat) (n : Nat) : List (List Item) :=
   chain.filterMap (fun i => blockOf env i n)
 
-def liftErr (k : Kind) : Except Err (List String) → Except Err (List String)
-  | .error e => .error (k :: e)
-  | .ok o => .ok o
-
-/-- items of the core fragment under the static resolution `D`; `rec n k` renders the `k`-th
-    definition of block `n`; `cur` = the definition being rendered -/
-def specItems (D : Nat → List (List Item)) (rec : Nat → Nat → Except Err (List String))
-    (cur : Option (Nat × Nat)) : List Item → Except Err (List String)
-  | [] => .ok []
-  | .text s :: rest =>
-    match specItems D rec cur rest with
-    | .error e => .error e
-    | .ok o => .ok (s :: o)
-  | .callBlock m :: rest =>
-    if (D m).isEmpty then .error [.unknownBlock]
+/-- a block reference: the most-derived definition -/
+def specBlock (cbs : SpecCbs) (D : Nat → List (List Item)) (disc : Bool) (outer : Nat) (m : Nat)
+    (fs : List Frame) : SRes :=
+  match D m with
+  | [] => .error [.unknownBlock]
+  | b :: bs =>
+    if (b :: bs).length == 1 && isRequired b then .error [.invalidOperation]
+    else if pushFails outer fs then .error [.invalidOperation]
     else
-      match rec m 0 with
+      match cbs.body D m 0 disc outer (fs ++ [[]]) with
       | .error e => .error e
-      | .ok o =>
-        match specItems D rec cur rest with
-        | .error e => .error e
-        | .ok o' => .ok (o ++ o')
-  | .super :: rest =>
-    match cur with
-    | none => .error [.invalidOperation]
-    | some (n, k) =>
-      if k + 1 < (D n).length then
-        match liftErr .evalBlock (rec n (k + 1)) with
-        | .error e => .error e
-        | .ok o =>
-          match specItems D rec cur rest with
-          | .error e => .error e
-          | .ok o' => .ok (o ++ o')
-      else .error [.invalidOperation]
-  | .extends false _ :: rest => specItems D rec cur rest
-  | _ :: _ => .error [.unsupported]
+      | .ok (o, fs') => .ok (o, fs'.take fs.length)
 
-/-- the `k`-th definition of block `n` -/
-def specBody (D : Nat → List (List Item)) : Nat → Nat → Nat → Except Err (List String)
-  | 0 => fun _ _ => .error [.recursion]
-  | fuel + 1 => fun n k =>
-    match (D n)[k]? with
-    | none => .error [.panic]
-    | some body => specItems D (specBody D fuel) (some (n, k)) body
+/-- `super()` inside definition `k` of block `n`: definition `k + 1` -/
+def specSuper (cbs : SpecCbs) (D : Nat → List (List Item)) (cur : Option (Nat × Nat)) (disc : Bool)
+    (outer : Nat) (fs : List Frame) : SRes :=
+  match cur with
+  | none => .error [.invalidOperation]
+  | some (n, k) =>
+    if k + 1 < (D n).length then
+      if pushFails outer fs then .error [.invalidOperation]
+      else
+        match cbs.body D n (k + 1) disc outer (fs ++ [[]]) with
+        | .error e => .error (.evalBlock :: e)
+        | .ok (o, fs') => .ok (o, fs'.take fs.length)
+    else .error [.invalidOperation]
+
+/-- include: the first existing template, as a chain of its own, on the includer's frames -/
+def specInclude (env : Env) (cbs : SpecCbs) (disc ign : Bool) (outer : Nat) :
+    List Nat → Bool → List Frame → SRes
+  | [], tried, fs => if tried && !ign then .error [.templateNotFound] else .ok ([], fs)
+  | t :: rest, _, fs =>
+    match env[t]? with
+    | none => specInclude env cbs disc ign outer rest true fs
+    | some T =>
+      if outer + INCLUDE_COST + fs.length > LIMIT then .error [.invalidOperation]
+      else
+        match cbs.chain [t] disc (outer + INCLUDE_COST) T.layout fs with
+        | .error e => .error (.badInclude :: e)
+        | .ok (o, fs') => .ok (o, fs'.take fs.length)
+
+def specLoop (run : List Frame → SRes) (v : Nat) (vals : List String) (fl : Nat) (fs : List Frame) : SRes :=
+  vals.foldl (fun (acc : SRes) val =>
+    match acc with
+    | .error e => .error e
+    | .ok (o, s) =>
+      match run (s.take fl ++ [[(v, .str val)]]) with
+      | .error e => .error e
+      | .ok (o', s') => .ok (o ++ o', s')) (.ok ([], fs))
+
+/-- a statement list.  `disc`: the output is discarding; `ext`: an `extends` of the enclosing
+    template has been executed; `cur`: the block definition being rendered -/
+def specItems (env : Env) (rootCtx : Frame) (cbs : SpecCbs) (D : Nat → List (List Item))
+    (cur : Option (Nat × Nat)) (disc ext : Bool) (outer : Nat) : List Item → List Frame → SRes
+  | [], fs => .ok ([], fs)
+  | it :: rest, fs =>
+    let cont (r : SRes) : SRes :=
+      match r with
+      | .error e => .error e
+      | .ok (o, fs') =>
+        match specItems env rootCtx cbs D cur disc ext outer rest fs' with
+        | .error e => .error e
+        | .ok (o', fs'') => .ok (o ++ o', fs'')
+    match it with
+    | .callBlock m =>
+      if ext || disc then cont (.ok ([], fs)) else cont (specBlock cbs D disc outer m fs)
+    | .super => cont (specSuper cbs D cur disc outer fs)
+    | .setSuper v =>
+      match specSuper cbs D cur false outer fs with
+      | .error e => .error e
+      | .ok (o, fs') => cont (.ok ([], store fs' v (.str (String.join o))))
+    | .setSelf v m =>
+      if ext then cont (.ok ([], store fs v (.str "")))
+      else
+        match specBlock cbs D false outer m fs with
+        | .error e => .error e
+        | .ok (o, fs') => cont (.ok ([], store fs' v (.str (String.join o))))
+    | .extends exec _ =>
+      if !exec then cont (.ok ([], fs))
+      else if ext then .error [.invalidOperation]
+      else .error [.unsupported]
+    | .incl names ign => cont (specInclude env cbs disc ign outer names false fs)
+    | .importAs t v =>
+      if pushFails outer fs then .error [.invalidOperation]
+      else
+        match specInclude env cbs false false outer [t] false (fs ++ [[]]) with
+        | .error e => .error e
+        | .ok (_, fs') =>
+          cont (.ok ([], store (fs'.take fs.length) v (.module (dedupKeys (topFrame fs')))))
+    | .fromImport t name alias =>
+      if pushFails outer fs then .error [.invalidOperation]
+      else
+        match specInclude env cbs true false outer [t] false (fs ++ [[]]) with
+        | .error e => .error e
+        | .ok (_, fs') =>
+          cont (.ok ([], store (fs'.take fs.length) alias ((lookupVal name (topFrame fs')).getD .undef)))
+    | .loop v vals body =>
+      if body.any isExtends then .error [.unsupported]
+      else if pushFails outer fs then .error [.invalidOperation]
+      else
+        match specLoop (cbs.list D cur disc ext outer body) v vals fs.length (fs ++ [[]]) with
+        | .error e => .error e
+        | .ok (o, s) => cont (.ok (o, s.take fs.length))
+    | .inMacro m arg val body =>
+      if body.any isExtends then .error [.unsupported]
+      else
+        let fs1 := store fs m .opaque
+        let outer' := outer + fs1.length + MACRO_COST
+        if outer' + 2 > LIMIT then .error [.invalidOperation]
+        else
+          match cbs.list D none false false outer' body [[], [(arg, .str val)]] with
+          | .error e => .error e
+          | .ok (o, _) => cont (.ok (if disc then [] else o, fs1))
+    | it =>
+      match varItem rootCtx disc it fs with
+      | some (.ok (o, fs')) => cont (.ok (o, fs'))
+      | some (.error e) => .error e
+      | none => .error [.unsupported]
 
 /-- split a layout at its first executed `extends` -/
 def splitExtends : List Item → Option (List Item × Nat × List Item)
@@ -103,50 +185,86 @@ def hasExecExtends : List Item → Bool
   | .extends true _ :: _ => true
   | _ :: rest => hasExecExtends rest
 
-/-- render the layout of the last template of `chain` (most-derived first), then its parents -/
-def specTemplate (env : Env) : Nat → List Nat → List Item → Except Err (List String)
-  | 0 => fun _ _ => .error [.recursion]
-  | fuel + 1 => fun chain layout =>
-    let D := defs env chain
-    match splitExtends layout with
-    | none => specItems D (specBody D fuel) none layout
-    | some (pre, t, post) =>
-      match specItems D (specBody D fuel) none pre with
-      | .error e => .error e
-      | .ok o =>
-        if t ∈ chain.tail then .error [.invalidOperation]
-        else
-          match env[t]? with
-          | none => .error [.templateNotFound]
-          | some T =>
-            if hasExecExtends post then .error [.invalidOperation]
-            else
-              match specTemplate env fuel (chain ++ [t]) T.layout with
-              | .error e => .error e
-              | .ok o' => .ok (o ++ o')
+/-- the layout of the last template of `chain` (most-derived first), then its parents -/
+def specChain (env : Env) (rootCtx : Frame) (cbs : SpecCbs) (chain : List Nat) (disc : Bool)
+    (outer : Nat) (layout : List Item) (fs : List Frame) : SRes :=
+  let D := defs env chain
+  match splitExtends layout with
+  | none => specItems env rootCtx cbs D none disc false outer layout fs
+  | some (pre, t, post) =>
+    match specItems env rootCtx cbs D none disc false outer pre fs with
+    | .error e => .error e
+    | .ok (o, fs1) =>
+      if t ∈ chain.tail then .error [.invalidOperation]
+      else
+        match env[t]? with
+        | none => .error [.templateNotFound]
+        | some T =>
+          match specItems env rootCtx cbs (defs env (chain ++ [t])) none true true outer post fs1 with
+          | .error e => .error e
+          | .ok (o2, fs2) =>
+            match cbs.chain (chain ++ [t]) disc outer T.layout fs2 with
+            | .error e => .error e
+            | .ok (o3, fs3) => .ok (o ++ o2 ++ o3, fs3)
 
-def specRender (env : Env) (fuel : Nat) (main : Nat) : Except Err (List String) :=
+/-- the spec with `fuel` nesting levels left -/
+def specAll (env : Env) (rootCtx : Frame) : Nat → SpecCbs
+  | 0 =>
+    { body := fun _ _ _ _ _ _ => .error [.recursion],
+      list := fun _ _ _ _ _ _ _ => .error [.recursion],
+      chain := fun _ _ _ _ _ => .error [.recursion] }
+  | fuel + 1 =>
+    { body := fun D n k disc outer fs =>
+        match (D n)[k]? with
+        | none => .error [.panic]
+        | some b => specItems env rootCtx (specAll env rootCtx fuel) D (some (n, k)) disc false outer b fs,
+      list := fun D cur disc ext outer items fs =>
+        specItems env rootCtx (specAll env rootCtx fuel) D cur disc ext outer items fs,
+      chain := fun chain disc outer layout fs =>
+        specChain env rootCtx (specAll env rootCtx fuel) chain disc outer layout fs }
+
+def specRender (env : Env) (rootCtx : Frame) (fuel : Nat) (main : Nat) : Except Err (List String) :=
   match env[main]? with
   | none => .error [.templateNotFound]
-  | some T => specTemplate env fuel [main] T.layout
+  | some T =>
+    match (specAll env rootCtx fuel).chain [main] false 0 T.layout [[]] with
+    | .error e => .error e
+    | .ok (o, _) => .ok o
 
-/-! ## the core fragment -/
+/-! ## the fragment for which driver = spec is proved -/
 
+mutual
+/-- `cur` = the block whose body this is; `blk` = block references allowed (not in macros) -/
+def itemOK (cur : Option Nat) (blk : Bool) : Item → Bool
+  | .callBlock m | .setSelf _ m =>
+    blk && (match cur with
+      | some n => decide (n < m)
+      | none => true)
+  | .super | .setSuper _ => cur.isSome
+  | .extends exec _ => !exec
+  | .loop _ _ body => itemsOK cur blk body
+  | .inMacro _ _ _ body => itemsOK none false body
+  | _ => true
+def itemsOK (cur : Option Nat) (blk : Bool) : List Item → Bool
+  | [] => true
+  | it :: rest => itemOK cur blk it && itemsOK cur blk rest
+end
+
+/-- layouts: statements, at most one *executed* `extends` at top level (not inside a loop or a
+    macro), `super()` only inside blocks; behind the `extends` anything of the same kind, further
+    `extends` tags included (they are errors) -/
 def layoutOK : List Item → Bool
   | [] => true
-  | .extends true _ :: rest => rest.all Item.isPost
-  | it :: rest => it.isPlain && layoutOK rest
+  | .extends true _ :: rest => rest.all (fun it => isExtends it || itemOK none true it)
+  | it :: rest => itemOK none true it && layoutOK rest
 
-/-- block bodies: text / block references / super(), and a block nested in block `n` has a larger
-    number than `n` (nesting of blocks is well-founded across the whole environment) -/
-def bodyOK (n : Nat) (body : List Item) : Bool :=
-  body.all (fun it => it.isBody && (match it with | .callBlock m => decide (n < m) | _ => true))
-
+/-- block bodies: a block nested in (or called by name from) block `n` has a larger number than
+    `n` — the nesting of blocks is well-founded across the whole environment -/
 def templateOK (T : Template) : Bool :=
-  layoutOK T.layout && T.blocks.all (fun p => bodyOK p.1 p.2)
+  layoutOK T.layout && T.blocks.all (fun p => itemsOK (some p.1) true p.2)
 
-def CoreEnv (env : Env) : Prop := ∀ T ∈ env, templateOK T = true
+def EnvOK (env : Env) : Prop := ∀ T ∈ env, templateOK T = true
 
-instance (env : Env) : Decidable (CoreEnv env) := by unfold CoreEnv; infer_instance
+instance (env : Env) : Decidable (EnvOK env) := by unfold EnvOK; infer_instance
 
 end MJ.Blocks
